@@ -3,7 +3,7 @@ import NomtModel.Store.ImgCheck
 import NomtModel.Store.ImgMerkle
 import NomtModel.Store.Placement
 import NomtModel.Store.TraceOrder
-import NomtModel.Store.SyncGenRec
+import NomtModel.Store.SyncGenRecProof
 /-!
 Driver mode `image` (C16 / C19): every stdin line `check <dir> <expected-file>` makes the driver read
 the files of the nomt directory `<dir>` itself, decode them with the Lean decoders of
@@ -129,6 +129,7 @@ def memberReport (tr : List IoEv2) : Except String String :=
   if tr.isEmpty then .ok "member=0 member_trivial=1" else
   let P := SyncGen.paramsOf tr
   let stats := s!"member=1 mem_rollback_append={b01 P.seg.isSome} mem_rollover={b01 ((P.seg.map (·.create)).getD false)} mem_no_rollback_append={b01 P.seg.isNone} mem_tree_ops={P.bt.length} mem_tree_grows={(P.bt.filter (·.grow)).length} mem_ht_writes={P.ht.length} mem_no_ht_writes={b01 P.ht.isEmpty} mem_prune_unlinks={P.prune.unlinks.length} mem_prune_any={b01 (!P.prune.unlinks.isEmpty || P.prune.tail.isSome)} mem_prune_truncate_head={b01 P.prune.tail.isSome} mem_wal_written=1"
+  if !P.wfB then .error s!"order: choreography: a rollback segment carries the name of a store file (params {repr P})" else
   match SyncGen.member SyncGen.real P tr with
   | .ok => .ok stats
   | .cut => .error s!"order: choreography: the trace ends although tasks of the sync program (Store/SyncGen.lean) are unfinished — the model claims lines the code did not issue (params {repr P})"
@@ -138,6 +139,7 @@ def memberReport (tr : List IoEv2) : Except String String :=
 def recMemberReport (tr : List IoEv2) : Except String String :=
   let R := SyncGen.recParamsOf tr
   let stats := s!"rec_member=1 rec_redo={b01 (match R.wal with | .redo _ => true | _ => false)} rec_stale_wal={b01 (R.wal == .stale)} rec_no_wal={b01 (R.wal == .absent)} rec_unlinks={R.unlinks.length} rec_truncate_head={b01 R.head.isSome}"
+  if !R.wfB then .error s!"member: recovery choreography: the head segment carries the name of a store file" else
   match SyncGen.firstDiff tr (SyncGen.recLines {} R) 0 with
   | none => .ok stats
   | some k => .error s!"member: recovery choreography: line {k} `{match tr[k]? with | some l => renderLine l | none => "<end of trace>"}` differs from the recovery program (Store/SyncGenRec.lean), which has `{match (SyncGen.recLines {} R)[k]? with | some l => renderLine l | none => "<end>"}` there"
